@@ -22,8 +22,10 @@ TIERS = {
 }
 RULE = ('case i: one seeded source text - random Unicode text, random bytes, token soup, a generated valid '
         'program (sequential or time travel), that program mutated at token level (delete / insert / swap / '
-        'duplicate / replace tokens), truncated at a token boundary (end-of-file spans), or ill-typed by type '
-        'and flavour substitution; nesting depth <= 40 - and one seeded option vector (-m in {0,8,12,16,24,32,'
+        'duplicate / replace tokens), truncated at a token boundary (end-of-file spans), ill-typed by type '
+        'and flavour substitution, or ill-typed by tree surgery (alien expressions in place of well-typed ones, '
+        'assignments to string elements / constants / array variables, empty values used as values, wrong '
+        'arity, misplaced return/break/try/preempt); nesting depth <= 40 - and one seeded option vector (-m in {0,8,12,16,24,32,'
         '64,-8}, -s in {-1,0,1,20,500,10^6,10^9}, --unchecked, --lint, with/without -o). API oracle: only a '
         'CompilerError may escape parse -> evaluate -> CodeGen -> gen_lines, get_info() renders and every span '
         'lies inside the source. CLI oracle (hidc.__main__.main() in-process on a fake file system): failure = '
@@ -124,16 +126,82 @@ def make_source(rnd):
     if c < 0.16:
         return 'nested', nested(rnd)
     p, argv, W, kind = progs.draw(rnd)
+    if c < 0.46:
+        try:
+            return 'illtyped', render.program(illtype(rnd, p))
+        except Exception:   # noqa: BLE001 - unrenderable damage: fall back to the valid text
+            pass
     src = render.program(p, render.Style(rnd.randrange(1 << 30)) if rnd.random() < 0.5 else render.PLAIN)
-    if c < 0.36:
+    if c < 0.56:
         return 'valid', src
     toks = tokens_of(src)
-    if c < 0.6:
+    if c < 0.72:
         return 'truncated', ' '.join(toks[:rnd.randrange(len(toks) + 1)])
-    if c < 0.65:
+    if c < 0.76:
         # cut in the middle of a token / literal
         return 'cut', src[:rnd.randrange(len(src) + 1)]
     return 'mutated', ' '.join(mutate(rnd, toks))
+
+
+ALIENS = [
+    ('int', 7), ('bool', True), ('str', 'zz'), ('chr', 65), ('arr', ()), ('arr', (('int', 1), ('int', 2))),
+    ('arr', (('arr', (('int', 1),)),)), ('call', 'nothing', ()), ('arr', (('call', 'nothing', ()),)),
+    ('call', 'undefined_fn', (('int', 1),)), ('call', 'write', (('int', 1),)), ('call', '!is_defeat', ()),
+    ('call', '@is_you', ()), ('len', ('int', 3)), ('len', ('arr', (('call', 'nothing', ()),))),
+    ('idx', ('int', 3), ('int', 0)), ('idx', ('str', 'ab'), ('bool', True)), ('idx', ('str', 'ab'), ('str', 'x')),
+    ('is', ('str', 'ab'), 'int'), ('is', ('int', 1), 'string'), ('is', ('arr', (('int', 1),)), 'int'),
+    ('is', ('str', 'ab'), ('arrt', 'int', True)), ('un', '-', ('str', 'ab')), ('un', '-', ('bool', True)),
+    ('bin', '+', ('str', 'a'), ('int', 1)), ('bin', '<', ('bool', True), ('bool', False)),
+    ('bin', '==', ('str', 'a'), ('str', 'a')), ('bin', '==', ('bool', True), ('int', 1)),
+    ('bin', '/', ('int', 1), ('int', 0)), ('bin', '%', ('int', 1), ('bin', '-', ('int', 2), ('int', 2))),
+    ('spec', ('int', 1), ('str', 'a')), ('spec', ('str', 'a'), ('str', 'b')), ('var', 'no_such_variable'),
+    ('idx', ('arr', ()), ('int', 0)), ('idx', ('arr', (('call', 'nothing', ()),)), ('int', 0)),
+    ('int', 10 ** 30), ('un', 'not', ('arr', ())), ('bin', 'and', ('str', ''), ('arr', ())),
+]
+BAD_STMTS = [
+    ('set', ('idx', ('str', 'ab'), ('int', 0)), ('int', 65)),
+    ('aug', '+', ('idx', ('str', 'ab'), ('int', 0)), ('int', 1)),
+    ('decl', 'string', 'zs', ('str', 'ab'), False), ('set', ('idx', ('var', 'zs'), ('int', 0)), ('chr', 65)),
+    ('aug', '*', ('idx', ('var', 'zs'), ('int', 1)), ('int', 2)),
+    ('decl', 'int', 'zc', ('int', 1), True), ('set', ('var', 'zc'), ('int', 2)), ('aug', '+', ('var', 'zc'), ('int', 2)),
+    ('decl', ('arrt', 'int', True), 'za', ('arr', (('int', 1),)), True), ('set', ('idx', ('var', 'za'), ('int', 0)), ('int', 2)),
+    ('set', ('var', 'za'), ('arr', (('int', 3),))), ('decl', ('arrt', 'int', False), 'zb', ('var', 'za'), True),
+    ('decl', 'bool', 'zf', ('bool', True), False), ('aug', '+', ('var', 'zf'), ('int', 1)),
+    ('decl', 'string', 'zt', ('str', 'a'), False), ('aug', '+', ('var', 'zt'), ('str', 'b')),
+    ('decl', 'int', 'zn', ('call', 'nothing', ()), False), ('decl', 'byte', 'zy', ('var', 'zn'), False),
+    ('dyn', 'int', 'zd', ('str', 'n')), ('dyn', 'int', 'ze', ('bool', True)),
+    ('decl', ('arrt', 'int', False), 'zg', ('arr', (('str', 'a'),)), True),
+    ('decl', ('arrt', 'bool', False), 'zh', ('arr', (('int', 2),)), True),
+    ('ret', ('int', 1)), ('ret', None), ('break',), ('cont',),
+    ('expr', ('call', 'nothing', (('int', 1),))), ('expr', ('call', 'write', ())),
+    ('expr', ('call', 'write', (('arr', (('int', 1),)),))), ('expr', ('call', 'sleep', (('str', 'x'),))),
+    ('preempt', ('block', ())), ('try', ('block', ()), 'undo', ('block', ())),
+    ('if', ('call', 'nothing', ()), ('block', ()), None), ('while', ('str', 'x'), ('block', (('break',),))),
+    ('for', ('decl', 'int', 'zi', ('int', 0), False), ('var', 'zi'), ('set', ('var', 'zi'), ('str', 's')), ('block', (('break',),))),
+]
+
+
+def illtype(rnd, prog):
+    """Type-directed damage on a generated program: alien expressions in place of well-typed ones,
+    assignments to things that cannot be assigned, misuse of empty values, arity and flavour errors."""
+    from .. import shrink
+    prog = ('prog', prog[1], (('func', 'empty', 'nothing', (), ('block', ())),) + prog[2])
+    for _ in range(rnd.randrange(1, 4)):
+        if rnd.random() < 0.5:
+            paths = list(shrink._expr_paths(prog))
+            if paths:
+                path, _ = rnd.choice(paths)
+                prog = shrink._set(prog, path, rnd.choice(ALIENS))
+                continue
+        blocks = list(shrink._paths_blocks(prog))
+        if blocks:
+            path = rnd.choice(blocks)
+            blk = shrink._get(prog, path)
+            pos = rnd.randrange(len(blk[1]) + 1)
+            k = rnd.randrange(len(BAD_STMTS))
+            new = BAD_STMTS[max(0, k - 1):k + 1] if rnd.random() < 0.5 else BAD_STMTS[k:k + 1]
+            prog = shrink._set(prog, path, ('block', blk[1][:pos] + tuple(new) + blk[1][pos:]))
+    return prog
 
 
 M_OPTS = (0, 8, 12, 16, 24, 32, 64, -8)
